@@ -17,7 +17,7 @@ theorem add_atomic (c : HCfg) (t : HashTable) (k : Key) (v : Nat) (m : Mem) (h :
     (hfail : (t.add c k v m).1 ≠ .ok) :
     ((t.add c k v m).1 = .errAlloc ∨ (t.add c k v m).1 = .errMaxCapacity) ∧
     (t.add c k v m).2.1.abs.Perm t.abs ∧ (t.add c k v m).2.1.size = t.size ∧
-    (t.add c k v m).2.2.live = m.live ∧ (t.add c k v m).2.1.Inv c ∧ (t.add c k v m).2.2.fault = m.fault := by
+    liveOf (t.add c k v m).2.2 t.triple = liveOf m t.triple ∧ (t.add c k v m).2.1.Inv c ∧ (t.add c k v m).2.2.fault = m.fault := by
   obtain ⟨a1, _, a3, a4, _⟩ := HashTable.add_spec c t k v m h
   obtain ⟨b1, b2, b3, b4⟩ := a3 hfail
   exact ⟨b1, b2, b3, b4, a1, a4⟩
@@ -33,16 +33,17 @@ theorem add_fails_only_when_refused (c : HCfg) (t : HashTable) (k : Key) (v : Na
 /-- **the table stays fully usable**: after a failed insertion every further history produces the
 statuses and out-values of the ideal map *as it was before the failed call* -/
 theorem continue_after_failed_add (c : HCfg) (t : HashTable) (k : Key) (v : Nat) (m : Mem) (ops : List Op)
-    (h : t.Inv c) (hl : t.size + 2 ≤ m.live) (hfail : (t.add c k v m).1 ≠ .ok) :
+    (h : t.Inv c) (hl : t.size + 2 ≤ liveOf m t.triple) (hfail : (t.add c k v m).1 ≠ .ok) :
     let t' := (t.add c k v m).2.1
     let m' := (t.add c k v m).2.2
     (t'.run c ops m').1 = (Map.run t.abs ops (t'.run c ops m').2.1).1 ∧
     (t'.run c ops m').2.2.1.abs.Perm (Map.run t.abs ops (t'.run c ops m').2.1).2 := by
   intro t' m'
   obtain ⟨_, b2, b3, b4, b5, _⟩ := add_atomic c t k v m h hfail
-  have hl' : t'.size + 2 ≤ m'.live := by
-    show (t.add c k v m).2.1.size + 2 ≤ (t.add c k v m).2.2.live
-    omega
+  have hT : (t.add c k v m).2.1.triple = t.triple := (HashTable.add_spec c t k v m h).2.2.2.2.2.2
+  have hl' : t'.size + 2 ≤ liveOf m' t'.triple := by
+    show (t.add c k v m).2.1.size + 2 ≤ liveOf (t.add c k v m).2.2 (t.add c k v m).2.1.triple
+    rw [hT]; omega
   obtain ⟨r1, r2, _⟩ := C02.history_refines c ops t' m' t.abs b5 hl' b2
   exact ⟨r1, r2⟩
 
@@ -64,10 +65,10 @@ theorem not_refused (c : HCfg) (t : HashTable) (op : Op) (m : Mem) (h : (t.step 
 /-- **atomic**, per step of the API: after a failed call the map, the size and the ledger are what
 they were, the invariant holds, nothing faulted (only `add` can fail; a failed `add` may have grown
 the bucket array, which is why atomicity is on `abs` and not on the physical state) -/
-theorem atomic (c : HCfg) (t : HashTable) (op : Op) (m : Mem) (h : t.Inv c) (hl : t.size + 2 ≤ m.live)
+theorem atomic (c : HCfg) (t : HashTable) (op : Op) (m : Mem) (h : t.Inv c) (hl : t.size + 2 ≤ liveOf m t.triple)
     (hf : (t.step c op m).1.st = some .errAlloc) :
     (t.step c op m).2.1.abs.Perm t.abs ∧ (t.step c op m).2.1.size = t.size ∧
-    (t.step c op m).2.2.live = m.live ∧ (t.step c op m).2.1.Inv c ∧ (t.step c op m).2.2.fault = m.fault := by
+    liveOf (t.step c op m).2.2 t.triple = liveOf m t.triple ∧ (t.step c op m).2.1.Inv c ∧ (t.step c op m).2.2.fault = m.fault := by
   cases op with
   | add k v =>
     simp only [HashTable.step] at hf ⊢
@@ -81,22 +82,22 @@ theorem atomic (c : HCfg) (t : HashTable) (op : Op) (m : Mem) (h : t.Inv c) (hl 
              · exact absurd hf a
   | containsKey k => simp [HashTable.step] at hf
   | remove k =>
-    have := (HashTable.remove_spec c t k m h (by omega)).2.2.2.1
+    have := (HashTable.remove_spec c t k m h (fun _ => by omega)).2.2.2.1
     simp only [HashTable.step] at hf; rw [this] at hf; split at hf <;> simp at hf
   | removeAll => simp [HashTable.step] at hf
 
 /-- the constructor reports `CC_ERR_ALLOC` exactly when one of its two requests was refused -/
-theorem new_refused_iff (c : HCfg) (cap : Nat) (m : Mem) :
-    (HashTable.new c cap m).1 = .errAlloc ↔ (m.alloc.1 = false ∨ m.alloc.2.alloc.1 = false) := by
+theorem new_refused_iff (c : HCfg) (cap : Nat) (tr : Triple) (m : Mem) :
+    (HashTable.new c cap tr m).1 = .errAlloc ↔ ((m.allocT tr).1 = false ∨ ((m.allocT tr).2.allocT tr).1 = false) := by
   unfold HashTable.new; simp only
-  cases h1 : m.alloc.1 <;> cases h2 : m.alloc.2.alloc.1 <;> simp
+  cases h1 : (m.allocT tr).1 <;> cases h2 : ((m.allocT tr).2.allocT tr).1 <;> simp
 
 /-- **continue**: after a failed insertion, any further history produces the same outputs and ends in
 the same map as the same history run on the table as it was before the failed call (from any
 ledger), provided the same later insertions are refused in both runs — the failed call might as
 well never have happened -/
 theorem continue_ (c : HCfg) (t : HashTable) (k : Key) (v : Nat) (m mA : Mem) (ops : List Op)
-    (h : t.Inv c) (hl : t.size + 2 ≤ m.live) (hlA : t.size + 2 ≤ mA.live) (hfail : (t.add c k v m).1 ≠ .ok)
+    (h : t.Inv c) (hl : t.size + 2 ≤ liveOf m t.triple) (hlA : t.size + 2 ≤ liveOf mA t.triple) (hfail : (t.add c k v m).1 ≠ .ok)
     (hsame : ((t.add c k v m).2.1.run c ops (t.add c k v m).2.2).2.1 = (t.run c ops mA).2.1) :
     ((t.add c k v m).2.1.run c ops (t.add c k v m).2.2).1 = (t.run c ops mA).1 ∧
     ((t.add c k v m).2.1.run c ops (t.add c k v m).2.2).2.2.1.abs.Perm (t.run c ops mA).2.2.1.abs := by
@@ -104,6 +105,24 @@ theorem continue_ (c : HCfg) (t : HashTable) (k : Key) (v : Nat) (m mA : Mem) (o
   obtain ⟨q1, q2, _⟩ := C02.history_refines c ops t mA t.abs h hlA (List.Perm.refl _)
   rw [hsame] at r1 r2
   exact ⟨by rw [r1, q1], r2.trans q2.symm⟩
+
+/-- **continue, without an oracle**: once the schedule is exhausted (the allocator "has memory
+again") and as long as neither run reaches the maximal capacity `2^31`, the continuation after the
+failed insertion and the same history on the untouched table produce identical outputs and the same
+map — from any two ledgers that do not refuse -/
+theorem continue_no_refusal (c : HCfg) (t : HashTable) (k : Key) (v : Nat) (m mA : Mem) (ops : List Op)
+    (h : t.Inv c) (hl : t.size + 2 ≤ liveOf m t.triple) (hlA : t.size + 2 ≤ liveOf mA t.triple)
+    (hfail : (t.add c k v m).1 ≠ .ok)
+    (hs : (t.add c k v m).2.2.sched = []) (hsA : mA.sched = [])
+    (hcap : ((t.add c k v m).2.1.run c ops (t.add c k v m).2.2).2.2.1.capacity ≠ Gen.MAX_POW_TWO)
+    (hcapA : (t.run c ops mA).2.2.1.capacity ≠ Gen.MAX_POW_TWO) :
+    ((t.add c k v m).2.1.run c ops (t.add c k v m).2.2).1 = (t.run c ops mA).1 ∧
+    ((t.add c k v m).2.1.run c ops (t.add c k v m).2.2).2.2.1.abs.Perm (t.run c ops mA).2.2.1.abs := by
+  obtain ⟨_, _, b3, b4, b5, _⟩ := add_atomic c t k v m h hfail
+  have hT : (t.add c k v m).2.1.triple = t.triple := (HashTable.add_spec c t k v m h).2.2.2.2.2.2
+  have f1 := (C02.history_statuses_closed c ops _ _ b5 (by rw [hT]; omega) hs hcap).1
+  have f2 := (C02.history_statuses_closed c ops t mA h hlA hsA hcapA).1
+  exact continue_ c t k v m mA ops h hl hlA hfail (by rw [f1, f2])
 
 /-- the same on the ideal map: a refused insertion in the middle of a history changes neither the
 final map nor any other output -/
@@ -127,45 +146,62 @@ theorem spec_continue (sp : Map) (ops₁ ops₂ : List Op) (k : Key) (v : Nat) (
       exact ⟨i1, (Map.step sp op f).1 :: o₁, o₂, by rw [i2]; rfl, by rw [i3]; rfl⟩
 
 /-- a refused constructor yields no object and leaves the ledger as it was -/
-theorem new_atomic (c : HCfg) (cap : Nat) (m : Mem) (hfail : (HashTable.new c cap m).1 ≠ .ok) :
-    (HashTable.new c cap m).1 = .errAlloc ∧ (HashTable.new c cap m).2.1 = none ∧
-    (HashTable.new c cap m).2.2.live = m.live ∧ (HashTable.new c cap m).2.2.fault = m.fault := by
-  obtain ⟨n1, n2, _, n4, _⟩ := HashTable.new_spec c cap m
+theorem new_atomic (c : HCfg) (cap : Nat) (tr : Triple) (m : Mem) (hfail : (HashTable.new c cap tr m).1 ≠ .ok) :
+    (HashTable.new c cap tr m).1 = .errAlloc ∧ (HashTable.new c cap tr m).2.1 = none ∧
+    liveOf (HashTable.new c cap tr m).2.2 tr = liveOf m tr ∧ (HashTable.new c cap tr m).2.2.fault = m.fault := by
+  obtain ⟨n1, n2, _, n4, _⟩ := HashTable.new_spec c cap tr m
   obtain ⟨q1, q2⟩ := n2 hfail
   rcases n1 with h | h
   · exact absurd h hfail
   · exact ⟨h, q1, q2, n4⟩
 
-/-- refused `get_keys`/`get_values`: no array, nothing leaked (the table itself is not touched by
-these functions at all) -/
+/-- refused `get_keys`/`get_values`: no array, nothing leaked, no fault (the table itself is not
+touched by these functions at all) -/
 theorem enumeration_atomic (c : HCfg) (t : HashTable) (m : Mem) (h : t.Inv c) (hpos : 0 < t.size)
-    (hbig : 3 * t.size ≤ Gen.CC_MAX_ELEMENTS) :
-    ((t.getKeys c m).1 ≠ .ok → (t.getKeys c m).1 = .errAlloc ∧ (t.getKeys c m).2.1 = none ∧ (t.getKeys c m).2.2.live = m.live) ∧
-    ((t.getValues c m).1 ≠ .ok → (t.getValues c m).1 = .errAlloc ∧ (t.getValues c m).2.1 = none ∧ (t.getValues c m).2.2.live = m.live) := by
+    (hbig : 8 * t.size ≤ Gen.CC_MAX_ELEMENTS) :
+    ((t.getKeys c m).1 ≠ .ok → (t.getKeys c m).1 = .errAlloc ∧ (t.getKeys c m).2.1 = none ∧
+        liveOf (t.getKeys c m).2.2 t.triple = liveOf m t.triple) ∧
+    ((t.getValues c m).1 ≠ .ok → (t.getValues c m).1 = .errAlloc ∧ (t.getValues c m).2.1 = none ∧
+        liveOf (t.getValues c m).2.2 t.triple = liveOf m t.triple) ∧
+    (t.getKeys c m).2.2.fault = m.fault ∧ (t.getValues c m).2.2.fault = m.fault := by
   have hw := HashTable.walk_eq t h.2.1
   have hsz := h.2.2.1
-  constructor
-  · obtain ⟨s1, s2, _⟩ := (HashTable.collect_spec c t (t.walk.map (fun e => encKey e.key)) m h (by rw [hw, List.length_map]; omega) hbig).2 hpos
-    intro hne
+  obtain ⟨s1, s2, _, s4, _⟩ := (HashTable.collect_spec c t (t.walk.map (fun e => encKey e.key)) m h (by rw [hw, List.length_map]; omega) hbig).2 hpos
+  obtain ⟨v1, v2, _, v4, _⟩ := (HashTable.collect_spec c t (t.walk.map (·.value)) m h (by rw [hw, List.length_map]; omega) hbig).2 hpos
+  refine ⟨?_, ?_, s4, v4⟩
+  · intro hne
     rcases s1 with h1 | h1
     · exact absurd h1 hne
     · exact ⟨h1, s2 hne⟩
-  · obtain ⟨s1, s2, _⟩ := (HashTable.collect_spec c t (t.walk.map (·.value)) m h (by rw [hw, List.length_map]; omega) hbig).2 hpos
-    intro hne
-    rcases s1 with h1 | h1
+  · intro hne
+    rcases v1 with h1 | h1
     · exact absurd h1 hne
-    · exact ⟨h1, s2 hne⟩
+    · exact ⟨h1, v2 hne⟩
 
 /-- hash set: the wrapped constructor propagates the inner failure and frees the outer header;
-a failed `cc_hashset_add` leaves the set unchanged -/
-theorem set_atomic (c : HCfg) (cap : Nat) (s : HashSet) (e : Key) (m : Mem) (h : s.Inv c) :
-    ((HashSet.new c cap m).1 ≠ .ok → (HashSet.new c cap m).2.1 = none ∧ (HashSet.new c cap m).2.2.live = m.live) ∧
+a failed `cc_hashset_add` leaves the set unchanged; nothing faults -/
+theorem set_atomic (c : HCfg) (cap : Nat) (tr : Triple) (s : HashSet) (e : Key) (m : Mem) (h : s.Inv c) :
+    ((HashSet.new c cap tr m).1 ≠ .ok → (HashSet.new c cap tr m).2.1 = none ∧
+        liveOf (HashSet.new c cap tr m).2.2 tr = liveOf m tr) ∧
+    (HashSet.new c cap tr m).2.2.fault = m.fault ∧
     ((s.add c e m).1 ≠ .ok → ((s.add c e m).1 = .errAlloc ∨ (s.add c e m).1 = .errMaxCapacity) ∧
-        (s.add c e m).2.1.abs.Perm s.abs ∧ (s.add c e m).2.1.size = s.size ∧ (s.add c e m).2.2.live = m.live ∧
-        (s.add c e m).2.1.Inv c) := by
-  obtain ⟨_, n2, _⟩ := HashSet.new_spec c cap m
-  obtain ⟨a1, _, a3, _⟩ := HashSet.add_spec c s e m h
-  exact ⟨n2, fun hne => ⟨(a3 hne).1, (a3 hne).2.1, (a3 hne).2.2.1, (a3 hne).2.2.2, a1⟩⟩
+        (s.add c e m).2.1.abs.Perm s.abs ∧ (s.add c e m).2.1.size = s.size ∧
+        liveOf (s.add c e m).2.2 s.triple = liveOf m s.triple ∧ (s.add c e m).2.1.Inv c) ∧
+    (s.add c e m).2.2.fault = m.fault := by
+  obtain ⟨_, n2, _, n4⟩ := HashSet.new_spec c cap tr m
+  obtain ⟨a1, _, a3, a4, _⟩ := HashSet.add_spec c s e m h
+  exact ⟨n2, n4, fun hne => ⟨(a3 hne).1, (a3 hne).2.1, (a3 hne).2.2.1, (a3 hne).2.2.2, a1⟩, a4⟩
+
+/-- **continue for the set**: after a failed `cc_hashset_add` every further history produces the
+statuses of the ideal set as it was before the failed call -/
+theorem set_continue_after_failed_add (c : HCfg) (s : HashSet) (e : Key) (m : Mem) (ops : List Set.Op)
+    (h : s.Inv c) (hl : s.size + 3 ≤ liveOf m s.triple) (hfail : (s.add c e m).1 ≠ .ok) :
+    ((s.add c e m).2.1.run c ops (s.add c e m).2.2).1 = (Set.run s.abs ops ((s.add c e m).2.1.run c ops (s.add c e m).2.2).2.1).1 ∧
+    ((s.add c e m).2.1.run c ops (s.add c e m).2.2).2.2.1.abs.Perm (Set.run s.abs ops ((s.add c e m).2.1.run c ops (s.add c e m).2.2).2.1).2 := by
+  obtain ⟨a1, _, a3, _, a5⟩ := HashSet.add_spec c s e m h
+  obtain ⟨_, b2, b3, b4⟩ := a3 hfail
+  obtain ⟨r1, r2, _⟩ := C02.set_history_refines c ops (s.add c e m).2.1 (s.add c e m).2.2 s.abs a1 (by rw [a5]; omega) b2
+  exact ⟨r1, r2⟩
 
 /-- hash set: `CC_ERR_ALLOC` exactly when a refusal fired -/
 theorem set_refused_iff (c : HCfg) (s : HashSet) (op : Set.Op) (m : Mem) :
@@ -176,11 +212,11 @@ theorem set_refused_iff (c : HCfg) (s : HashSet) (op : Set.Op) (m : Mem) :
 
 /-- non-vacuity: capacity 1, threshold 0 at capacities 1 and 2 — the insertion resizes twice and is
 then refused the entry (third allocation): status `CC_ERR_ALLOC`, empty map, capacity 4, ledger unchanged -/
-example : ((HashTable.mk 1 0 0 [[]]).add ⟨fun k => k, fun cap => cap / 4, fun cap => cap * 2⟩ (some 5) 50
+example : ((HashTable.mk 1 0 0 [[]] .conf).add ⟨fun k => k, fun cap => cap / 4, fun cap => cap * 2⟩ (some 5) 50
       { live := 2, sched := [false, false, true] }).1 = .errAlloc := by decide
-example : ((HashTable.mk 1 0 0 [[]]).add ⟨fun k => k, fun cap => cap / 4, fun cap => cap * 2⟩ (some 5) 50
-      { live := 2, sched := [false, false, true] }).2.1 = HashTable.mk 4 0 1 [[], [], [], []] := by decide
-example : ((HashTable.mk 1 0 0 [[]]).add ⟨fun k => k, fun cap => cap / 4, fun cap => cap * 2⟩ (some 5) 50
+example : ((HashTable.mk 1 0 0 [[]] .conf).add ⟨fun k => k, fun cap => cap / 4, fun cap => cap * 2⟩ (some 5) 50
+      { live := 2, sched := [false, false, true] }).2.1 = HashTable.mk 4 0 1 [[], [], [], []] .conf := by decide
+example : ((HashTable.mk 1 0 0 [[]] .conf).add ⟨fun k => k, fun cap => cap / 4, fun cap => cap * 2⟩ (some 5) 50
       { live := 2, sched := [false, false, true] }).2.2.live = 2 := by decide
 
 end CC.Properties.C08Hash
